@@ -41,6 +41,7 @@ class Harness:
     pre = []
     max_paths = 400
     timeout_ms = 20000
+    max_seconds = float(os.environ.get("VERIF_HARNESS_SECONDS", "90"))
 
     def __init__(self, id=None, vars=None, pre=None, run=None, witness=None, max_paths=None, timeout_ms=None, meta=None):
         if id is not None:
@@ -141,6 +142,27 @@ class KnownFindings:
 
 
 # ----------------------------------------------------------------------------- result
+MAX_PIN_CHAIN = 6
+_INT_BOUNDS = [2**63 - 1, -(2**63), 2**64 - 1, 2**53 + 1, -(2**53) - 1, -1, 0, 2**62 + 1]
+
+
+def _boundary_candidates(pin_term):
+    """for a pin `lhs == const` over Int / FloatingPoint: equalities with boundary constants (solver decides feasibility)"""
+    try:
+        if not z3.is_eq(pin_term) or pin_term.num_args() != 2:
+            return []
+        lhs, rhs = pin_term.arg(0), pin_term.arg(1)
+        if z3.is_int(lhs) and z3.is_int_value(rhs):
+            cur = rhs.as_long()
+            return [lhs == k for k in _INT_BOUNDS if k != cur][::-1]
+        if lhs.sort().kind() == z3.Z3_FLOATING_POINT_SORT:
+            vals = [float("inf"), float("-inf"), -0.0, 0.0, 1.7976931348623157e308, 5e-324, 9007199254740993.0, 1.0, -1.5]
+            return [lhs == core.fp_val(v) for v in vals][::-1] + [z3.fpIsNaN(lhs)]
+    except Exception:  # noqa: BLE001
+        return []
+    return []
+
+
 class HResult:
     def __init__(self, hid):
         self.id = hid
@@ -164,6 +186,7 @@ class HResult:
         self.funcs = set()
         self.aborted = 0
         self.wall_s = 0.0
+        self.pin_chains_cut = 0
 
     def to_dict(self):
         d = dict(self.__dict__)
@@ -190,7 +213,7 @@ def explore(h, known=None, collect_validation=2, profile_root=None):
     t_start = time.time()
     first = True
     while work:
-        if res.paths >= h.max_paths:
+        if res.paths >= h.max_paths or time.time() - t_start > h.max_seconds:
             res.budget_exhausted = True
             break
         prefix, extra, bound = work.pop()
@@ -292,10 +315,25 @@ def explore(h, known=None, collect_validation=2, profile_root=None):
         # generational search
         for i in range(bound, len(path)):
             t, k, kind = path[i]
+            if kind == "def":
+                continue  # definitional extension over fresh variables: never flipped
             neg = z3.Not(t) if k else t
+            if kind == "case":
+                # one arm of a finite multi-way split (e.g. the digit count of a rendered integer): enumerate the arms
+                if len(extra) < 64:
+                    work.append((pc[:i], extra + [neg], i))
+                continue
             if kind == "pin":
-                # a flipped pin is a persistent constraint of all descendants; the position stays open
+                # a flipped pin is a persistent constraint of all descendants; the position stays open.
+                # Concretised values with an unbounded domain are *sampled*: the chain of exclusions is cut at
+                # MAX_PIN_CHAIN (counted), and boundary values of the pinned term are tried first.
+                if len(extra) >= MAX_PIN_CHAIN:
+                    res.pin_chains_cut += 1
+                    continue
                 work.append((pc[:i], extra + [neg], i))
+                if not extra:
+                    for cand in _boundary_candidates(t):
+                        work.append((pc[:i], [cand], i))
             else:
                 work.append((pc[:i] + [neg], extra, i + 1))
     res.wall_s = time.time() - t_start
